@@ -25,8 +25,9 @@ var ctx = context.Background()
 // ---- interpreter ------------------------------------------------------------------------------------
 
 type execState struct {
-	env *stores.Env
-	sto blobserver.Storage
+	env  *stores.Env
+	sto  blobserver.Storage
+	root *stores.Node
 }
 
 // ParseTree parses the prefix notation after `//`: kind[:max] children…
@@ -138,13 +139,27 @@ func (st *execState) exec(w []string) string {
 			env.Close()
 			return "bad-op " + err.Error()
 		}
-		st.env, st.sto = env, s
+		st.env, st.sto, st.root = env, s, n
 		return "ok"
 	}
 	if st.sto == nil {
 		return "bad-op"
 	}
 	switch w[0] {
+	case "seedlower":
+		// the blob is put into the lower store of a root-level overlay directly
+		if len(w) != 3 || st.root == nil || st.root.Kind != "overlay" {
+			return "bad-op"
+		}
+		refs, ok := refsOf(w[1:2])
+		v, ok2 := hk.UnHex(w[2])
+		if !ok || !ok2 {
+			return "bad-op"
+		}
+		if _, err := blobserver.Receive(ctx, st.env.KidsOf[st.root][0], refs[0], bytes.NewReader(v)); err != nil {
+			return "err"
+		}
+		return "ok"
 	case "recv":
 		if len(w) != 3 {
 			return "bad-op"
@@ -514,6 +529,9 @@ func Run(r *hk.Run) {
 	}
 	for t := 0; t < nTrees; t++ {
 		tree := genTree(rnd, 1+rnd.Intn(3), false)
+		if t%5 == 0 {
+			tree = &stores.Node{Kind: "overlay", Kids: []*stores.Node{genTree(rnd, rnd.Intn(2), false), genTree(rnd, rnd.Intn(3), false)}}
+		}
 		tok, ok := tree.ModelToken()
 		if !ok {
 			continue
@@ -530,6 +548,17 @@ func Run(r *hk.Run) {
 			continue
 		}
 		r.Hit("root:" + tree.Kind)
+		if tree.Kind == "overlay" {
+			// an overlay is normally put over a store that already holds blobs
+			for i, b := range c.pool {
+				if i%2 == 0 && rnd.Chance(80) {
+					if out := c.op("seedlower " + hk.Hex([]byte(b.key)) + " " + hk.Hex(b.val)); out == "ok" {
+						c.ref[b.key] = b.val
+						r.Hit("overlay:seeded-lower")
+					}
+				}
+			}
+		}
 		n := nOps/2 + rnd.Intn(nOps)
 		for i := 0; i < n; i++ {
 			c.step(rnd)
